@@ -45,3 +45,25 @@ func HarnessC16ParseTextQuick() { c16text(2) }
 
 // HarnessC16ParseTextThorough: every byte string of length <= 3.
 func HarnessC16ParseTextThorough() { c16text(3) }
+
+// HarnessC16MapKV: maps with non-string keys/values on "K:V" and "K:V,K:V" with arbitrary bytes
+// for K and V (key or value failing to parse must be an error, not a panic).
+func HarnessC16MapKV() {
+	k := zzverif.Bytes("k", 1)
+	v := zzverif.Bytes("v", 1)
+	s := k + ":" + v
+	if zzverif.Choose("two", 2) == 1 {
+		s += "," + zzverif.Bytes("k2", 1) + ":" + v
+	}
+	switch zzverif.Choose("type", 4) {
+	case 0:
+		_, _ = Map(s, reflect.TypeOf(map[uint8]bool{}))
+	case 1:
+		_, _ = Map(s, reflect.TypeOf(map[int8]string{}))
+	case 2:
+		_, _ = Map(s, reflect.TypeOf(map[string]int8{}))
+	case 3:
+		_, _ = String(s, reflect.TypeOf(map[bool]uint16{}))
+	}
+	zzverif.Reached("c16-mapkv-end")
+}
